@@ -36,6 +36,13 @@ pub fn vf_into_map_collect<A, B, F: Fn(A) -> B>(x: Vec<A>, f: F) -> (r: Vec<B>)
     ensures r@.len() == x@.len(), forall|i: int| 0 <= i < x@.len() ==> f.ensures((x@[i],), #[trigger] r@[i]),
 { x.into_iter().map(f).collect() }
 
+// R2i: X.iter().map(F).collect::<Vec<_>>()   (X: &Vec) — assumed (primitive): F is applied to a reference to every element, in order
+#[verifier::external_body]
+pub fn vf_iter_map_collect<'x, A, B, F: Fn(&'x A) -> B>(x: &'x Vec<A>, f: F) -> (r: Vec<B>)
+    requires forall|i: int| 0 <= i < x@.len() ==> f.requires((&#[trigger] x@[i],)),
+    ensures r@.len() == x@.len(), forall|i: int| 0 <= i < x@.len() ==> f.ensures((&x@[i],), #[trigger] r@[i]),
+{ x.iter().map(f).collect() }
+
 // R3: X.into_iter().flat_map(G).collect::<Vec<_>>()
 // assumed (primitive, relational): the i-th call of G yields some output allowed by G's contract;
 // the outputs are concatenated in input order
